@@ -1,5 +1,5 @@
 import Secp.Proofs.GroupTies
-import Secp.Proofs.BytesTies
+import Secp.Proofs.BytesTiesNH
 import Secp.Proofs.HashToScalar
 /-!
 # C09 — HashToScalar is RFC 9380 hash_to_field over the scalar field
